@@ -340,6 +340,149 @@ Proof.
 Qed.
 End Orient.
 
+(* ------------------------------------------------------------------ sides that are dicts give distinct incidences *)
+
+Definition akey (a : arc) : str * str * role := (a_species a, a_rxn a, a_role a).
+
+Lemma nodup_app_intro {A} (l1 l2 : list A) : NoDup l1 -> NoDup l2 -> (forall x, In x l1 -> ~ In x l2) -> NoDup (l1 ++ l2).
+Proof.
+  induction l1 as [|a l1 IH]; intros H1 H2 H; simpl; [exact H2|]. inversion H1; subst. constructor.
+  - intros I. apply in_app_iff in I. destruct I as [I|I]; [contradiction|]. exact (H a (or_introl eq_refl) I).
+  - apply IH; auto. intros x I. apply H. right. exact I.
+Qed.
+
+Lemma nodup_side_keys (id : str) (ro : role) (sd : side) : NoDup (map fst sd) ->
+  NoDup (map akey (map (fun p => Arc (fst p) id (snd p) ro) sd)).
+Proof.
+  induction sd as [|p sd IH]; intros H; simpl; [constructor|]. inversion H; subst. constructor; [|apply IH; assumption].
+  intros I. apply in_map_iff in I. destruct I as (a & E & I). apply in_map_iff in I. destruct I as (q & <- & I).
+  unfold akey in E. simpl in E. inversion E. apply H2. rewrite <- H1. apply in_map. exact I.
+Qed.
+
+Lemma arcs_of_keys e : NoDup (map fst (rlhs e)) -> NoDup (map fst (rrhs e)) -> NoDup (map akey (arcs_of e)).
+Proof.
+  intros H1 H2. unfold arcs_of. rewrite map_app. apply nodup_app_intro; [apply nodup_side_keys; exact H1|apply nodup_side_keys; exact H2|].
+  intros k I1 I2. apply in_map_iff in I1. destruct I1 as (a & <- & I1). apply in_map_iff in I1. destruct I1 as (p & <- & _).
+  apply in_map_iff in I2. destruct I2 as (b & E & I2). apply in_map_iff in I2. destruct I2 as (q & <- & _).
+  unfold akey in E. simpl in E. inversion E.
+Qed.
+
+Lemma arcs_of_rxn e a : In a (arcs_of e) -> a_rxn a = rid e.
+Proof.
+  unfold arcs_of. intros I. apply in_app_iff in I. destruct I as [I|I]; apply in_map_iff in I; destruct I as (p & <- & _); reflexivity.
+Qed.
+
+Lemma flat_keys es : NoDup (map rid es) -> (forall e, In e es -> NoDup (map fst (rlhs e)) /\ NoDup (map fst (rrhs e))) ->
+  NoDup (map akey (flat_map arcs_of es)).
+Proof.
+  induction es as [|e es IH]; intros H Hd; simpl; [constructor|]. inversion H; subst. rewrite map_app. apply nodup_app_intro.
+  - destruct (Hd e (or_introl eq_refl)). apply arcs_of_keys; assumption.
+  - apply IH; auto. intros e' I. apply Hd. right. exact I.
+  - intros k I1 I2. apply in_map_iff in I1. destruct I1 as (a & <- & I1). apply in_map_iff in I2. destruct I2 as (b & E & I2).
+    apply in_flat_map in I2. destruct I2 as (e' & Ie' & Ib). apply H2. apply in_map_iff. exists e'. split; [|exact Ie'].
+    rewrite <- (arcs_of_rxn e a I1), <- (arcs_of_rxn e' b Ib). unfold akey in E. inversion E. reflexivity.
+Qed.
+
+(** unique edge ids + sides without repeated species (dicts) => the premise of [undirected_refine] *)
+Lemma keys_nodup_of_dicts net : NoDup (map rid net) ->
+  (forall e, In e net -> NoDup (map fst (rlhs e)) /\ NoDup (map fst (rrhs e))) ->
+  NoDup (map (fun a => (a_species a, a_rxn a, a_role a)) (bip_arcs net)).
+Proof.
+  intros H Hd. unfold bip_arcs. apply (flat_keys (edges_sorted net)).
+  - eapply NoDup_rid_perm; [apply edges_sorted_perm|exact H].
+  - intros e I. apply Hd. apply in_edges_sorted. exact I.
+Qed.
+
+(* ------------------------------------------------------------------ the direction of an arc plays no part *)
+
+Definition rev_arc (x : rarc) : rarc := RArc (ra_v x) (ra_u x) (ra_role x) (ra_stoich x).
+
+Lemma species_index_bound G u idx : index_get (species_index G) u = Some idx -> idx < length (species_index G).
+Proof.
+  unfold species_index. rewrite combine_length, map_length, seq_length, Nat.min_id. apply index_get_lt.
+Qed.
+
+Lemma node_vec_nth G ro r i : i < length (species_index G) ->
+  length (node_vec G ro r) = length (species_index G) /\
+  nth i (node_vec G ro r) 0%Z = csum (contrib (species_index G) r ro i) (incident (rg_arcs G) r).
+Proof.
+  intros Hi. set (n := length (species_index G)).
+  pose proof (acc_fold (species_index G) r n (species_index_bound G) (incident (rg_arcs G) r) (repeat 0%Z n, repeat 0%Z n)
+                (repeat_length _ _) (repeat_length _ _)) as (L1 & L2 & Hnth).
+  destruct (Hnth i Hi) as [H1 H2]. cbn [fst snd] in H1, H2. rewrite nth_repeat in H1, H2.
+  unfold node_vec, node_vecs. fold n. destruct ro; (split; [assumption|]); [rewrite H1|rewrite H2]; lia.
+Qed.
+
+Lemma incident_csum (f : rarc -> Z) arcs r :
+  csum f (incident arcs r) = csum (fun x => ((if N.eqb (ra_v x) r then f x else 0) + (if N.eqb (ra_u x) r then f x else 0))%Z) arcs.
+Proof. unfold incident. rewrite csum_app, !csum_filter, csum_plus. reflexivity. Qed.
+
+Lemma contrib_rev si r ro i x :
+  ((if N.eqb (ra_v (rev_arc x)) r then contrib si r ro i (rev_arc x) else 0) +
+   (if N.eqb (ra_u (rev_arc x)) r then contrib si r ro i (rev_arc x) else 0))%Z
+  = ((if N.eqb (ra_v x) r then contrib si r ro i x else 0) + (if N.eqb (ra_u x) r then contrib si r ro i x else 0))%Z.
+Proof.
+  unfold contrib, rev_arc, coeff. simpl.
+  destruct (N.eqb_spec (ra_u x) r) as [Eu|Nu], (N.eqb_spec (ra_v x) r) as [Ev|Nv]; try lia.
+  rewrite Eu, Ev. lia.
+Qed.
+
+Lemma csum_forall2 {A} (f g : A -> Z) l l' : Forall2 (fun x y => g y = f x) l l' -> csum g l' = csum f l.
+Proof. induction 1 as [|x y l l' H _ IH]; simpl; [reflexivity|]. rewrite H, IH. reflexivity. Qed.
+
+Lemma forall2_impl {A B} (P Q : A -> B -> Prop) l l' : (forall x y, P x y -> Q x y) -> Forall2 P l l' -> Forall2 Q l l'.
+Proof. intros H. induction 1; constructor; auto. Qed.
+
+Lemma fold_cstepN_ext (v1 v2 : role -> N -> list Z) l : (forall ro r, v1 ro r = v2 ro r) ->
+  forall st, fold_left (cstepN v1) l st = fold_left (cstepN v2) l st.
+Proof.
+  intros H. induction l as [|r l IH]; intros st; simpl; [reflexivity|].
+  assert (E : cstepN v1 st r = cstepN v2 st r) by (unfold cstepN; destruct st; rewrite !H; reflexivity).
+  rewrite E. apply IH.
+Qed.
+
+(** reversing any set of arcs (keeping role and coefficient) changes neither a vector nor the complex graph: the role, not the
+    direction, says on which side of the reaction a species stands *)
+Theorem direction_irrelevant ns A A' : Forall2 (fun x y => y = x \/ y = rev_arc x) A A' ->
+  (forall ro r, node_vec (RG ns A') ro r = node_vec (RG ns A) ro r) /\
+  complex_graph_nodes (RG ns A') = complex_graph_nodes (RG ns A).
+Proof.
+  intros HA.
+  assert (V : forall ro r, node_vec (RG ns A') ro r = node_vec (RG ns A) ro r).
+  { intros ro r. assert (SI : species_index (RG ns A') = species_index (RG ns A)) by reflexivity.
+    apply (nth_ext _ _ 0%Z 0%Z).
+    - destruct (Nat.eq_dec (length (species_index (RG ns A))) 0) as [Z0|NZ].
+      + unfold node_vec, node_vecs. rewrite SI, Z0. simpl.
+        assert (forall l st, fst st = [] -> snd st = [] ->
+                  fst (fold_left (acc_arc (species_index (RG ns A)) r) l st) = [] /\ snd (fold_left (acc_arc (species_index (RG ns A)) r) l st) = []) as K.
+        { induction l as [|a l IH]; intros st E1 E2; simpl; [split; assumption|]. apply IH; unfold acc_arc;
+            destruct (index_get _ _); try assumption; destruct (ra_role a) as [[|]|]; simpl; try assumption; rewrite ?E1, ?E2; destruct n; reflexivity. }
+        destruct (K (incident A' r) ([], []) eq_refl eq_refl) as [K1 K2]. destruct (K (incident A r) ([], []) eq_refl eq_refl) as [K3 K4].
+        simpl rg_arcs. destruct ro; [rewrite K1, K3|rewrite K2, K4]; reflexivity.
+      + assert (P : 0 < length (species_index (RG ns A))) by lia.
+        rewrite (proj1 (node_vec_nth (RG ns A') ro r 0 (eq_ind_r (fun t => 0 < length t) P SI))).
+        rewrite (proj1 (node_vec_nth (RG ns A) ro r 0 P)). rewrite SI. reflexivity.
+    - intros i Hi.
+      assert (Hi' : i < length (species_index (RG ns A))).
+      { destruct (Nat.eq_dec (length (species_index (RG ns A))) 0) as [Z0|NZ].
+        - exfalso. revert Hi. unfold node_vec, node_vecs. rewrite SI, Z0. simpl.
+          assert (forall l st, fst st = [] -> snd st = [] ->
+                    fst (fold_left (acc_arc (species_index (RG ns A)) r) l st) = [] /\ snd (fold_left (acc_arc (species_index (RG ns A)) r) l st) = []) as K.
+          { induction l as [|a l IH]; intros st E1 E2; simpl; [split; assumption|]. apply IH; unfold acc_arc;
+              destruct (index_get _ _); try assumption; destruct (ra_role a) as [[|]|]; simpl; try assumption; rewrite ?E1, ?E2; destruct n; reflexivity. }
+          destruct (K (incident A' r) ([], []) eq_refl eq_refl) as [K1 K2]. simpl rg_arcs. destruct ro; [rewrite K1|rewrite K2]; simpl; lia.
+        - rewrite (proj1 (node_vec_nth (RG ns A') ro r 0 (eq_ind_r (fun t => 0 < length t) (proj1 (Nat.neq_0_lt_0 _) NZ) SI))) in Hi.
+          rewrite SI in Hi. exact Hi. }
+      rewrite (proj2 (node_vec_nth (RG ns A') ro r i (eq_ind_r (fun t => i < length t) Hi' SI))).
+      rewrite (proj2 (node_vec_nth (RG ns A) ro r i Hi')). rewrite SI. simpl rg_arcs.
+      rewrite !incident_csum. apply csum_forall2.
+      eapply forall2_impl; [|exact HA]. intros x y [->| ->]; [reflexivity|apply contrib_rev]. }
+  split; [exact V|]. unfold complex_graph_nodes.
+  change (species_nodes (RG ns A')) with (species_nodes (RG ns A)). change (reaction_nodes (RG ns A')) with (reaction_nodes (RG ns A)).
+  destruct (species_nodes (RG ns A)); [reflexivity|]. destruct (reaction_nodes (RG ns A)); [reflexivity|].
+  f_equal. apply fold_cstepN_ext. exact V.
+Qed.
+
 (* non-vacuity: A + B <-> C, C -> 2A with species identifiers 11, 2, 10 and reaction identifiers 7, 3, 5 *)
 Definition exn_G : rgraph :=
   raw_export (look (species_set C19_Complexes.ex_net []) [11%N; 2%N; 10%N])
@@ -368,3 +511,12 @@ Example ex_undirected : as_bipartite_undirected (RG (rg_nodes exn_G) exn_U) = ex
          [RArc 2 1 (Some Reactant) None; RArc 1 2 (Some Reactant) (Some 2%Z); RArc 1 2 (Some Product) (Some 3%Z)]
   = [RArc 1 2 (Some Reactant) (Some 3%Z); RArc 2 1 (Some Product) (Some 3%Z)].
 Proof. split; [vm_compute; reflexivity|]. split; [vm_compute; discriminate|vm_compute; reflexivity]. Qed.
+
+Example ex_direction :
+  complex_graph_nodes (RG (rg_nodes exn_raw) (map rev_arc (rg_arcs exn_raw))) = complex_graph_nodes exn_raw /\
+  map rev_arc (rg_arcs exn_raw) <> rg_arcs exn_raw /\
+  NoDup (map (fun a => (a_species a, a_rxn a, a_role a)) (bip_arcs C19_Complexes.ex_net)).
+Proof. split; [vm_compute; reflexivity|]. split; [vm_compute; discriminate|]. apply keys_nodup_of_dicts; vm_compute.
+  - repeat constructor; simpl; intuition discriminate.
+  - intros e [<-|[<-|[<-|[]]]]; split; repeat constructor; simpl; intuition discriminate.
+Qed.
